@@ -43,6 +43,29 @@ theorem outgoing_unpaged (db : DB) (src pred at_ : Nat) (scope : List Nat) :
     ∧ (relatedOut db src pred at_ 0 scope none).2 = none :=
   relatedOut_unpaged db src pred at_ scope
 
+open Hub.Store Hub.OutScan in
+/-- T-C03-3a (a page is a window): with limit `n` the outgoing query returns the first `n` results of the unpaged
+query; continued from the key of the last result of a page it returns the next `n`; the continuation key is that of the
+page's last result exactly when more follow — the fast-forward to the continuation key makes the same `seen` / `added`
+decisions as the unpaged scan (the repaired D3 site). -/
+theorem outgoing_page_window (db : DB) (src pred at_ n : Nat) (scope : List Nat) (sk : Option RefKey)
+    (hsk : ∀ ks, sk = some ks → ks ∈ resultKeys db src pred at_ scope) :
+    let R := resultKeys db src pred at_ scope
+    let A := match sk with | none => R | some ks => afterKey ks R
+    let m := if n = 0 then A.length else n
+    relatedOut db src pred at_ n scope sk =
+      ((A.take m).map toRes, if n ≠ 0 ∧ m < A.length then (A.take m).getLast? else none) :=
+  relatedOut_page db src pred at_ n scope sk hsk
+
+open Hub.Store Hub.OutScan in
+/-- **T-C03-3: paging returns the same result — nothing missing, nothing twice.** For every database, source, predicate
+filter, instant, scope and every limit `n ≥ 1`: following the continuation keys and concatenating the pages gives exactly
+the list the unpaged query returns (and that list has pairwise distinct (predicate, target) pairs: `outgoing_unpaged`). -/
+theorem outgoing_paged_eq_unpaged (db : DB) (src pred at_ n : Nat) (scope : List Nat) (hn : 0 < n) :
+    allPages db src pred at_ n scope ((resultKeys db src pred at_ scope).length + 1) none
+      = (relatedOut db src pred at_ 0 scope none).1 :=
+  pages_eq_unpaged db src pred at_ n scope hn
+
 /-- the reference keys of one (dataset, referencing entity), as the index model of `index_step` sees them. -/
 def keysOf (db : Hub.Store.DB) (src ds : Nat) : List Key :=
   (db.refs.filter fun k => k.src == src && k.ds == ds).map fun k => ⟨k.t, (k.pred, k.tgt), k.del⟩
